@@ -16,3 +16,7 @@ Fixpoint ceval (sg:sym -> Z) (c:icon) : bool :=
   | IGE a b => (ieval sg b <=? ieval sg a)%Z | IGT a b => (ieval sg b <? ieval sg a)%Z
   | INot c' => negb (ceval sg c') | IAnd l => forallb (ceval sg) l end.
 Definition csp_sat (sg:sym -> Z) (cs:list icon) : bool := forallb (ceval sg) cs.
+
+(* a pysmt Solver that receives integer constraints: the list of its assertions; solve() is an oracle parameter of the
+   generated function (m_isolve), assumed by the tie theorems to decide solvability of the constraint list over Z *)
+Definition is_add (s:list icon) (c:icon) : list icon := s ++ [c].
